@@ -143,6 +143,57 @@ flush_before_rename!(c10_csv_3_f6, 3, 6, false);
 //@ id=C10 tier=thorough name=c10_csv_3_f7 timeout=900 role=flush_before_rename bound=CsvDump,3-block(s),buffer-4,write-call-7-fails fn=CsvDump::on_block,CsvDump::on_complete,BufWriter
 flush_before_rename!(c10_csv_3_f7, 3, 7, false);
 
+// Completion only: the callback is not driven through on_block; one byte is put into each buffer directly, so the
+// only code under test is on_complete (flush x4, rename x4) with the first failing write at flush k. This is the
+// cheapest form of the late-flush-failure question and stays decidable when on_complete itself is restructured
+// (seed C10-a: flush+rename per file in one loop made every on_block-driven instance run out of memory).
+macro_rules! complete_only {
+    ($name:ident, $k:expr) => {
+        #[kani::proof]
+        #[kani::stub(std::io::Error::is_interrupted, crate::verif_models::fs::stub_not_interrupted)]
+        #[kani::stub(<std::io::Error as std::error::Error>::source, crate::verif_models::fs::stub_no_source)]
+        #[kani::stub(<std::io::Error as std::error::Error>::cause, crate::verif_models::fs::stub_no_cause)]
+        #[kani::unwind(5)]
+        fn $name() {
+            unsafe { fmtm::CONST_ROWS.v = true; if $k < gfs::NSCHED { gfs::FAULT_AT.v[$k] = true; } }
+            let mut cb = mk_dump(4);
+            let x: u8 = kani::any();
+            let one = [x];
+            let mut pre_ok = true;
+            match cb.block_writer.write_all(&one) { Ok(()) => {}, Err(e) => { core::mem::forget(e); pre_ok = false; } }
+            match cb.tx_writer.write_all(&one) { Ok(()) => {}, Err(e) => { core::mem::forget(e); pre_ok = false; } }
+            match cb.txin_writer.write_all(&one) { Ok(()) => {}, Err(e) => { core::mem::forget(e); pre_ok = false; } }
+            match cb.txout_writer.write_all(&one) { Ok(()) => {}, Err(e) => { core::mem::forget(e); pre_ok = false; } }
+            assert!(pre_ok && unsafe { gfs::WRITE_CALLS.v } == 0, "C10:harness_bytes_are_buffered_not_written");
+            match cb.on_complete(0) {
+                Ok(()) => {
+                    unsafe {
+                        assert!(!gfs::WRITE_FAILED.v, "C10:exit_0_implies_no_write_failed");
+                        assert!(gfs::RENAMES.v == 4, "C10:exit_0_implies_all_files_have_final_names");
+                        assert!(gfs::ACCEPTED.v[3] == 1 && gfs::ACCEPTED.v[4] == 1 && gfs::ACCEPTED.v[5] == 1 && gfs::ACCEPTED.v[6] == 1, "C10:final_file_is_complete");
+                        assert!(gfs::ACCEPTED.v[3] == gfs::SNAP_AT_FIRST_RENAME.v[3] && gfs::ACCEPTED.v[4] == gfs::SNAP_AT_FIRST_RENAME.v[4]
+                            && gfs::ACCEPTED.v[5] == gfs::SNAP_AT_FIRST_RENAME.v[5] && gfs::ACCEPTED.v[6] == gfs::SNAP_AT_FIRST_RENAME.v[6], "C10:no_bytes_written_after_the_first_rename");
+                    }
+                    assert!($k >= 4, "C10:scheduled_write_failure_is_reported");
+                }
+                Err(e) => {
+                    core::mem::forget(e);
+                    assert!(unsafe { gfs::WRITE_FAILED.v }, "C10:completion_fails_only_on_a_write_failure");
+                    assert!(unsafe { gfs::RENAMES.v } == 0, "C10:write_failure_leaves_no_final_named_file");
+                }
+            }
+            kani::cover!(true, "schedule evaluated to the end");
+            core::mem::forget(cb);
+        }
+    };
+}
+//@ id=C10 tier=quick name=c10_csv_done_ok timeout=900 role=flush_before_rename bound=CsvDump::on_complete-only,1-byte-buffered-per-file,fault-free fn=CsvDump::on_complete,BufWriter
+complete_only!(c10_csv_done_ok, usize::MAX);
+//@ id=C10 tier=quick name=c10_csv_done_f1 timeout=900 role=flush_before_rename bound=CsvDump::on_complete-only,final-flush-of-file-1-fails
+complete_only!(c10_csv_done_f1, 1);
+//@ id=C10 tier=quick name=c10_csv_done_f3 timeout=900 role=flush_before_rename bound=CsvDump::on_complete-only,final-flush-of-file-3-fails
+complete_only!(c10_csv_done_f3, 3);
+
 // Symbolic schedule: every subset of failing write calls (and, optionally, short writes), decided in one query.
 macro_rules! flush_sym {
     ($name:ident, $blocks:expr, $short:expr) => {
@@ -197,15 +248,15 @@ macro_rules! flush_sym {
         }
     };
 }
-//@ id=C10 tier=thorough name=c10_csv_sym_1 timeout=5400 mem=30 role=flush_before_rename bound=CsvDump,1-block,buffer-4,SYMBOLIC-fault-schedule(any-subset-of-the-first-12-write-calls-fails) fn=CsvDump::on_block,CsvDump::on_complete,BufWriter
+//@ id=C10 tier=extra name=c10_csv_sym_1 timeout=5400 mem=30 role=flush_before_rename bound=CsvDump,1-block,buffer-4,SYMBOLIC-fault-schedule(any-subset-of-the-first-12-write-calls-fails) fn=CsvDump::on_block,CsvDump::on_complete,BufWriter
 flush_sym!(c10_csv_sym_1, 1, false);
-//@ id=C10 tier=thorough name=c10_csv_sym_3 timeout=7200 role=flush_before_rename bound=CsvDump,3-blocks,buffer-4,SYMBOLIC-fault-schedule mem=30
+//@ id=C10 tier=extra name=c10_csv_sym_3 timeout=7200 role=flush_before_rename bound=CsvDump,3-blocks,buffer-4,SYMBOLIC-fault-schedule mem=30
 flush_sym!(c10_csv_sym_3, 3, false);
-//@ id=C10 tier=thorough name=c10_csv_sym_3_short timeout=5400 role=flush_before_rename bound=CsvDump,3-blocks,buffer-4,SYMBOLIC-faults-and-short-writes mem=24
+//@ id=C10 tier=extra name=c10_csv_sym_3_short timeout=5400 role=flush_before_rename bound=CsvDump,3-blocks,buffer-4,SYMBOLIC-faults-and-short-writes mem=24
 flush_sym!(c10_csv_sym_3_short, 3, true);
 
 // C02 names + C01 totals: real formatting, no faults
-//@ id=C02,C01 tier=thorough name=c02_csv_names timeout=5400 role=names bound=CsvDump,start/last-heights-from-{0,7,12,345}x{0,9,10,99999} mem=20 fn=CsvDump::on_start,CsvDump::on_complete
+//@ id=C02,C01 tier=extra name=c02_csv_names timeout=5400 role=names bound=CsvDump,start/last-heights-from-{0,7,12,345}x{0,9,10,99999} mem=20 fn=CsvDump::on_start,CsvDump::on_complete
 #[kani::proof]
 #[kani::unwind(48)]
 fn c02_csv_names() {
@@ -243,6 +294,43 @@ fn c02_csv_names() {
     kani::cover!(si == 3 && ei == 3, "multi-digit heights");
     core::mem::forget(cb);
 }
+
+// One concrete (start, last) pair with real formatting: the symbolic 4x4 table above does not finish.
+macro_rules! csv_names_at {
+    ($name:ident, $s:expr, $e:expr, $stxt:expr, $etxt:expr) => {
+        #[kani::proof]
+        #[kani::unwind(24)]
+        fn $name() {
+            unsafe { gfs::LOG_NAMES.v = true; }
+            let mut cb = mk_dump(64);
+            match cb.on_start($s) { Ok(()) => {}, Err(er) => { core::mem::forget(er); } }
+            match cb.on_complete($e) {
+                Ok(()) => {}
+                Err(er) => { core::mem::forget(er); assert!(false, "C02:completion_ok"); }
+            }
+            let kinds: [&str; 4] = ["blocks", "transactions", "tx_in", "tx_out"];
+            unsafe {
+                assert!(gfs::RENAMES.v == 4, "C02:four_files_renamed");
+                let mut k = 0;
+                while k < 4 {
+                    let mut want = String::new();
+                    want.push_str(kinds[k]); want.push('-'); want.push_str($stxt); want.push('-'); want.push_str($etxt); want.push_str(".csv");
+                    let got = &gfs::RENAME_TO.v[k][..gfs::RENAME_TO_LEN.v[k]];
+                    assert!(got.len() == want.len(), "C02:file_name_carries_start_and_last_height");
+                    let wb = want.as_bytes();
+                    let mut i = 0;
+                    while i < got.len() { assert!(got[i] == wb[i], "C02:file_name_carries_start_and_last_height"); i += 1; }
+                    core::mem::forget(want);
+                    k += 1;
+                }
+            }
+            kani::cover!(true, "names compared");
+            core::mem::forget(cb);
+        }
+    };
+}
+//@ id=C02 tier=thorough name=c02_csv_names_7_12 timeout=1800 role=names bound=CsvDump,start-7,last-12,real-formatting mem=20 fn=CsvDump::on_start,CsvDump::on_complete
+csv_names_at!(c02_csv_names_7_12, 7, 12, "7", "12");
 
 // C01 block_rows: one row per block / transaction / input / output, totals equal the rows written.
 // Constant rows (2 bytes each); the row *text* with real formatting is the thorough-tier c02_csv_names / c07_unspent_row.
